@@ -22,7 +22,8 @@ from .objects import PDict as PDictT
 VERIF = os.path.dirname(os.path.dirname(os.path.abspath(__file__)))
 # evidence/ and replays/ are written next to the machinery unless a kill-check run on a scratch copy of /repo
 # asks for another place (tools/acceptance.py, tools/mutate.py): those runs must not overwrite the evidence of /repo
-OUT = os.environ.get("PYVC_OUT") or VERIF
+# (a run restricted by the debugging aid PYVC_ONLY must not replace the evidence of a full run)
+OUT = os.environ.get("PYVC_OUT") or (os.path.join("/tmp", "pyvc-partial-run-%d" % os.getuid()) if os.environ.get("PYVC_ONLY") else VERIF)
 
 
 class VU:
